@@ -97,16 +97,8 @@ pub fn load_program(mods: &[(Vec<String>, String)]) -> Result<Program, Panic> {
     texts.insert(mr, text.clone());
     user.push(mr);
   }
-  for (mr, text) in samlang_parser::builtin_std_raw_sources(&mut heap) {
-    if modules.contains_key(&mr) {
-      continue;
-    }
-    let (m, _) = parse_in(&mut heap, mr, &text)?;
-    modules.insert(mr, m);
-    texts.insert(mr, text);
-  }
-  // std modules that exist in the repository but are not compiled into the parser crate (std/set.sam)
-  for (name, text) in std_extra_sources() {
+  let user_texts: Vec<&str> = mods.iter().map(|(_, t)| t.as_str()).collect();
+  for (name, text) in needed_std(&mut heap, &user_texts) {
     let mr = heap.alloc_module_reference_from_string_vec(name);
     if modules.contains_key(&mr) {
       continue;
@@ -147,4 +139,35 @@ pub fn std_extra_sources() -> Vec<(Vec<String>, String)> {
     }
   }
   out
+}
+
+/// std modules (built into the parser crate or present in /repo/std) that the given texts import,
+/// transitively. Compiling only what is reachable keeps a case at milliseconds.
+pub fn needed_std(heap: &mut Heap, user_texts: &[&str]) -> Vec<(Vec<String>, String)> {
+  let mut all: std::collections::HashMap<String, String> = std::collections::HashMap::new();
+  for (mr, text) in samlang_parser::builtin_std_raw_sources(heap) {
+    all.insert(mr.pretty_print(heap), text);
+  }
+  for (name, text) in std_extra_sources() {
+    all.entry(name.join(".")).or_insert(text);
+  }
+  // tuples are needed by every tuple expression
+  let mut need: Vec<String> = vec!["std.tuples".to_string()];
+  let mut queue: Vec<String> = user_texts.iter().map(|s| s.to_string()).collect();
+  while let Some(text) = queue.pop() {
+    for part in text.split("from ").skip(1) {
+      let path: String = part.chars().take_while(|c| c.is_ascii_alphanumeric() || *c == '.' || *c == ' ').collect::<String>().replace(' ', "");
+      let path = path.trim_end_matches('.').to_string();
+      if path.starts_with("std.") && !need.contains(&path) && all.contains_key(&path) {
+        need.push(path.clone());
+        queue.push(all[&path].clone());
+      }
+    }
+  }
+  if let Some(t) = all.get("std.tuples") {
+    queue.push(t.clone());
+  }
+  need.sort();
+  need.dedup();
+  need.into_iter().filter_map(|n| all.get(&n).map(|t| (n.split('.').map(|x| x.to_string()).collect(), t.clone()))).collect()
 }
